@@ -103,3 +103,32 @@ Proof.
   destruct (tf || negb (se_transfer_ok e)); cbn; [apply Nat.eqb_refl|].
   destruct (se_republish_ok e); cbn; [reflexivity | apply Nat.eqb_refl].
 Qed.
+
+(* consecutive reconnects keep the whole item table when every recreate succeeds *)
+Lemma round_keeps_items p e groups :
+  se_create_ok e = true -> se_items_ok e = true ->
+  snd (round_items p e groups) = groups /\
+  (fst (round_items p e groups) = total_items groups \/ fst (round_items p e groups) = 0).
+Proof.
+  intros Hc Hi. unfold round_items. destruct p as [|tf]; cbn [reconnect_subs fst map].
+  - split; [reflexivity | right; reflexivity].
+  - unfold restore_all. cbn [fst map]. unfold restore_one, recreate. rewrite Hc, Hi.
+    destruct (tf || negb (se_transfer_ok e)); cbn [fst].
+    + split; [reflexivity | left; reflexivity].
+    + destruct (se_republish_ok e); cbn [fst].
+      * split; [reflexivity | right; reflexivity].
+      * split; [reflexivity | left; reflexivity].
+Qed.
+
+Lemma rounds_keep_items : forall k p e groups,
+  se_create_ok e = true -> se_items_ok e = true ->
+  snd (rounds_items k p e groups) = groups /\
+  forall r, In r (fst (rounds_items k p e groups)) -> r = total_items groups \/ r = 0.
+Proof.
+  induction k as [|k IH]; intros p e groups Hc Hi; cbn [rounds_items]; [split; [reflexivity | intros r []]|].
+  destruct (round_keeps_items p e groups Hc Hi) as [H1 H2].
+  destruct (round_items p e groups) as [req g1]. cbn in H1, H2. subst g1.
+  destruct (IH p e groups Hc Hi) as [H3 H4].
+  destruct (rounds_items k p e groups) as [reqs gk]. cbn in *. split; [exact H3|].
+  intros r [<-|Hr]; [exact H2 | apply H4; exact Hr].
+Qed.
